@@ -36,12 +36,17 @@ pub struct Case {
     /// the image is named as a PATH that is not a regular file: `/dev/stdin` backed by a pipe the harness feeds (a FIFO, a
     /// `<(...)` substitution, `gen | fml execute /dev/stdin` look the same to the tool: st_size 0, not seekable)
     pub dev_stdin_pipe: bool,
+    /// environment block of every child (locale, RUST_LOG, DEBUG, ...): no image and no load may depend on it
+    pub env: Vec<(String, String)>,
+    /// `action < file` with the file positioned past a prefix of this many bytes (another image stored in front of this one,
+    /// or a reader before us consumed it): the load starts where stdin stands, not at byte 0 of whatever file is behind it
+    pub stdin_offset: usize,
 }
 
 impl Case {
     pub fn to_json(&self) -> Value {
         json!({"engine": ENGINE, "property": self.property, "program": self.spec.to_json(), "profile": self.profile.name(), "writer": self.writer,
-               "action": self.action, "via_stdin": self.via_stdin, "plan": self.plan, "save_channel": self.save_channel, "save_plan": self.save_plan, "stale": self.stale, "hash_seed": self.hash_seed, "dev_stdin_pipe": self.dev_stdin_pipe})
+               "action": self.action, "via_stdin": self.via_stdin, "plan": self.plan, "save_channel": self.save_channel, "save_plan": self.save_plan, "stale": self.stale, "hash_seed": self.hash_seed, "dev_stdin_pipe": self.dev_stdin_pipe, "env": self.env, "stdin_offset": self.stdin_offset})
     }
     pub fn from_json(v: &Value) -> Option<Case> {
         Some(Case {
@@ -57,6 +62,8 @@ impl Case {
             stale: v.get("stale").and_then(|x| x.as_bool()).unwrap_or(false),
             hash_seed: v.get("hash_seed")?.as_u64()?,
             dev_stdin_pipe: v.get("dev_stdin_pipe").and_then(|x| x.as_bool()).unwrap_or(false),
+            env: v.get("env").and_then(|e| e.as_array()).map(|a| a.iter().filter_map(|e| Some((e.get(0)?.as_str()?.to_string(), e.get(1)?.as_str()?.to_string()))).collect()).unwrap_or_default(),
+            stdin_offset: v.get("stdin_offset").and_then(|x| x.as_u64()).unwrap_or(0) as usize,
         })
     }
 }
@@ -99,7 +106,8 @@ pub fn check(case: &Case) -> Result<Option<Obs>, (String, String)> {
         }
         let mut c = if case.save_channel == "-o FILE" { Child::new(case.profile, &["compile", "x.json", "-o", "x.bc"]) } else { Child::new(case.profile, &["compile", "x.json"]) };
         if case.save_channel == "stdout>file" { c.stdout = super::proc::Out::File("x.bc".into()); }
-        c.shim = Some(ShimCfg { seed: case.hash_seed, plan: case.save_plan.clone(), clock: None, junk: 0, budget: Some(4_000_000) });
+        c.env = case.env.clone();
+        c.shim = Some(ShimCfg { seed: case.hash_seed, plan: case.save_plan.clone(), clock: None, junk: 0, budget: Some(4_000_000), ..Default::default() });
         let r = run_child(&dir, &c);
         children += 1;
         if !r.exit.is_success() { cleanup(&dir); return Ok(None); } // stage refusal (C06's subject) or a transient fault reported as an error
@@ -137,14 +145,24 @@ pub fn check(case: &Case) -> Result<Option<Obs>, (String, String)> {
     let clean_r = run_child(&dir, &clean);
     children += 1;
     let mut faulty = Child::new(case.profile, &args);
+    faulty.env = case.env.clone();
     if case.via_stdin { faulty.stdin = In::File("x.bc".into()); }
+    if case.via_stdin && case.stdin_offset > 0 {
+        // the image sits behind a prefix (a different, valid image of a one-line program, repeated to the requested length)
+        let mut prefix = foreign::encode(&foreign::boundary_pool_model(3));
+        while prefix.len() < case.stdin_offset { let again = prefix.clone(); prefix.extend_from_slice(&again); }
+        let mut all = prefix.clone();
+        all.extend_from_slice(&std::fs::read(dir.join("x.bc")).unwrap_or_default());
+        std::fs::write(dir.join("behind.bc"), &all).unwrap();
+        faulty.stdin = In::FileAt("behind.bc".into(), prefix.len() as u64);
+    }
     if dsp { faulty.stdin = In::Pipe(image_bytes.clone()); }
     // call indices relative to the number of read calls the fault-free load made: `$-1` = its last call (the one that reports
     // end-of-file), `$-2` the one before, `$/2` the middle one
     let n_reads = clean_r.trace.lines().filter(|l| l.starts_with(if case.via_stdin { "R i " } else { "R r " })).count();
     let plan = case.plan.replace("$-1", &n_reads.saturating_sub(1).to_string()).replace("$-2", &n_reads.saturating_sub(2).to_string()).replace("$/2", &(n_reads / 2).to_string());
     let hard = plan.contains(":x:") || plan.contains(":y:");
-    faulty.shim = Some(ShimCfg { seed: case.hash_seed, plan: plan.clone(), clock: None, junk: 0, budget: Some(4_000_000) });
+    faulty.shim = Some(ShimCfg { seed: case.hash_seed, plan: plan.clone(), clock: None, junk: 0, budget: Some(4_000_000), ..Default::default() });
     let r = run_child(&dir, &faulty);
     children += 1;
     cleanup(&dir);
@@ -171,7 +189,9 @@ pub fn check(case: &Case) -> Result<Option<Obs>, (String, String)> {
     if &r.exit != want_exit || &r.stdout != want_out {
         let schedule = &clean_r.exit == want_exit && (case.action != "execute" || &clean_r.stdout == want_out);
         let at = first_difference(&r.stdout, want_out).unwrap_or(0);
-        let oracle = if schedule && dsp && case.plan.is_empty() {
+        let oracle = if schedule && case.via_stdin && case.stdin_offset > 0 {
+            format!("{}6:load_ignores_where_stdin_stands", tag)
+        } else if schedule && dsp && case.plan.is_empty() {
             format!("{}6:load_depends_on_the_kind_of_file_behind_the_path", tag)
         } else if schedule && !case.plan.is_empty() {
             format!("{}6:load_depends_on_delivery_schedule", tag)
@@ -203,7 +223,7 @@ fn check_model_image(case: &Case, m: &foreign::FModel) -> Result<Option<Obs>, (S
     let mut faulty = Child::new(case.profile, &args);
     if case.via_stdin { faulty.stdin = In::File("x.bc".into()); }
     let plan: String = if case.plan.contains('$') || case.plan.contains(":x:") || case.plan.contains(":y:") { String::new() } else { case.plan.clone() }; // transient plans only here
-    faulty.shim = Some(ShimCfg { seed: case.hash_seed, plan: plan.clone(), clock: None, junk: 0, budget: Some(4_000_000) });
+    faulty.shim = Some(ShimCfg { seed: case.hash_seed, plan: plan.clone(), clock: None, junk: 0, budget: Some(4_000_000), ..Default::default() });
     let r = run_child(&dir, &faulty);
     let _ = std::fs::remove_dir_all(&dir);
     if r.exit == Exit::Timeout || clean_r.exit == Exit::Timeout { return Ok(None); }
@@ -237,6 +257,8 @@ fn minimise(case: &Case, oracle: &str) -> Case {
     if best.save_channel != "-o FILE" { let mut c = best.clone(); c.save_channel = "-o FILE".into(); if still(&c) { best = c; } }
     if best.via_stdin { let mut c = best.clone(); c.via_stdin = false; if still(&c) { best = c; } }
     if best.dev_stdin_pipe { let mut c = best.clone(); c.dev_stdin_pipe = false; if still(&c) { best = c; } }
+    if !best.env.is_empty() { let mut c = best.clone(); c.env = vec![]; if still(&c) { best = c; } }
+    if best.stdin_offset > 0 { let mut c = best.clone(); c.stdin_offset = 0; if still(&c) { best = c; } }
     if let ProgSpec::Stmts(stmts) = &best.spec {
         let mut stmts = stmts.clone();
         let mut j = stmts.len();
@@ -295,8 +317,11 @@ pub fn run_layer_b(property: &str, seed: u64, tier: &str, ev: &mut Evidence) -> 
             stale: rng.below(4) == 0,
             hash_seed: rng.next_u64(),
             dev_stdin_pipe: false,
+            env: if rng.below(3) == 0 { super::proc::env_set(&mut rng) } else { vec![] },
+            stdin_offset: 0,
         };
         let mut case = case;
+        if case.via_stdin && rng.below(4) == 0 { case.stdin_offset = *rng.pick(&[1usize, 20, 100, 5000, 9000]); if case.plan.contains('$') { case.plan = String::new(); } }
         if !case.via_stdin && rng.below(10) == 0 { case.dev_stdin_pipe = true; if case.plan.contains('$') || case.plan.contains(":x:") || case.plan.contains(":y:") { case.plan = String::new(); } }
         if rng.below(3) == 0 {
             let c = if case.save_channel == "-o FILE" { 'f' } else { 'o' };
